@@ -34,9 +34,12 @@ def gen_env_group(rng, gi):
     if rng.random() < .12: fs.append(["batch", rng.choice([2, 3])])
     return g
 
-LRN_KINDS = ["stateful-ap", "stateful-pmf", "stateful-kw", "stateful-a", "stateful-info", "random", "epsilon", "ucb", "corral", "fixed"]
+# stateful-mem: a learner with __len__ (falsy while it has learned nothing); stateful-armkeys: writes non-str keys to learning_info
+LRN_KINDS = ["stateful-ap", "stateful-pmf", "stateful-kw", "stateful-a", "stateful-info", "random", "epsilon", "ucb", "corral", "fixed",
+             "stateful-mem", "stateful-armkeys"]
 def gen_learner(rng, li):
-    return {"kind": rng.choice(LRN_KINDS + ["stateful-ap", "stateful-kw"]), "tag": f"L{li}", "seed": rng.randrange(1, 20)}
+    return {"kind": rng.choice(LRN_KINDS + ["stateful-ap", "stateful-kw"]), "tag": f"L{li}", "seed": rng.randrange(1, 20),
+            "uni": rng.random() < .3}                      # non-ASCII text among the learner's params
 
 def gen_evaluator(rng, vi):
     k = rng.choice(["cb", "cb", "cb-seed", "cb-record", "rec", "rec", "func", "cb-ips", "rejection"])
@@ -49,7 +52,7 @@ def gen_spec(rng, max_groups=3, max_lrns=3, max_vals=2):
     for v in [v for v in vals if v["kind"] == "func"][1:]: v["kind"] = "rec"     # the bare function is one object: list it once
     if any(f[0] == "logged" for g in groups for f in g["filters"]) and rng.random() < .8:
         vals[-1]["kind"] = rng.choice(["cb-ips", "rejection"])                     # logged data is actually used by an off-policy evaluator
-    spec = {"groups": groups, "lrns": lrns, "vals": vals, "seed": rng.choice([1, 7, 42]), "triples": "cross"}
+    spec = {"groups": groups, "lrns": lrns, "vals": vals, "seed": rng.choice([1, 7, 42, 0]), "triples": "cross"}
     if rng.random() < .35:
         # explicit tuple list over (group-member index resolved at build time, learner, evaluator), objects shared in random patterns
         spec["triples"] = [[rng.random(), rng.randrange(len(lrns)), rng.randrange(len(vals)) if rng.random() < .8 else None]
@@ -98,7 +101,8 @@ def build_learner(l, fail=None):
     from vf import components as comp
     from coba.learners import RandomLearner, BanditEpsilonLearner, BanditUCBLearner, CorralLearner, FixedLearner
     k = l["kind"]
-    if k.startswith("stateful"): return comp.StatefulLearner(l["tag"], k.split("-")[1], fail)
+    if k == "stateful-mem": return comp.MemoryLearner(l["tag"], "ap", fail, uni=l.get("uni"))
+    if k.startswith("stateful"): return comp.StatefulLearner(l["tag"], k.split("-")[1], fail, uni=l.get("uni"))
     if k == "random":  return RandomLearner()
     if k == "epsilon": return BanditEpsilonLearner(.2, seed=l["seed"])
     if k == "ucb":     return BanditUCBLearner(seed=l["seed"])
